@@ -222,6 +222,27 @@ class SymNum:
             _div_guard(self)
         return self._rb(o, lambda a, b: a / b)
 
+    # floor division / modulo of Python floats: floor(a / b), a - b * floor(a / b)  (z3's to_int is the floor)
+    def __floordiv__(self, o):
+        if DIV_CHECK[0]:
+            _div_guard(o)
+        return self._b(o, lambda a, b: z3.ToReal(z3.ToInt(a / b)))
+
+    def __rfloordiv__(self, o):
+        if DIV_CHECK[0]:
+            _div_guard(self)
+        return self._rb(o, lambda a, b: z3.ToReal(z3.ToInt(a / b)))
+
+    def __mod__(self, o):
+        if DIV_CHECK[0]:
+            _div_guard(o)
+        return self._b(o, lambda a, b: a - b * z3.ToReal(z3.ToInt(a / b)))
+
+    def __rmod__(self, o):
+        if DIV_CHECK[0]:
+            _div_guard(self)
+        return self._rb(o, lambda a, b: a - b * z3.ToReal(z3.ToInt(a / b)))
+
     def __neg__(self):
         return self._same(-self.e)
 
